@@ -564,5 +564,12 @@ def check(rep, tier, seed):
         "covered by the LTS)",
         "correspondence runs are sequential writes with script-controlled yield points (hook gates); the harness waits "
         "for the real pipeline with a probe watcher (`sync`), the committed revision (`rev`) and parked goroutines (`await`)",
+        "flow control of a real gRPC stream exists only in the dynamic test TestWatchesSharingAStreamSurviveAConsumerPause (several "
+        "watches on one stream, a consumer that pauses): the in-process streams of the suites have none",
     ]
-    return False
+    # several watches on ONE real gRPC stream, a consumer that pauses and resumes: every watch must go on delivering
+    from .. import dyntest
+    return dyntest.run_go_test(rep, "C05", "TestWatchesSharingAStreamSurviveAConsumerPause", "watch-stream-stalled",
+                               "watches sharing one gRPC stream stopped delivering after a pause of the consumer although the stream "
+                               "is open and nothing was cancelled (answers must be sent one at a time: gRPC wakes only one blocked sender)",
+                               env={"KB_WATCH_STREAM": "1"})
